@@ -218,6 +218,11 @@ func (w *world) scanRace(f []string) string {
 			return "setup-" + v
 		}
 	}
+	// the race only makes sense on the set that was reported (a cache that already serves other keys is the
+	// business of the ordinary steps)
+	if rs := w.rc.ScanRegions([]byte(""), []byte(""), 0); len(rs) != n || !bytes.Equal(rs[n/2].GetStartKey(), key(n/2)) {
+		return "setup-served-set-differs"
+	}
 	var stop int32
 	var bad atomic.Value
 	var rwg sync.WaitGroup
